@@ -246,7 +246,7 @@ def run(chk: Check) -> None:
         if i < len(sweep):
             mm, mp, B, body, bs, short = sweep[i]
         else:
-            mm = rng.choice([None, 16, 60, 100, 150, 400])
+            mm = rng.choice([None, 0, 1, 5, 16, 60, 100, 150, 400])
             mp = rng.choice([None, None, 0, 1, 2, 3, 1000])
             sizes = [0, 1, 5] + ([mm - 1, mm, mm + 1, mm // 2] if mm else [30, 100])
             if rng.random() < 0.85:
@@ -293,6 +293,14 @@ def run(chk: Check) -> None:
                 chk.fail("limits-change-result", "parsing under limits succeeded with a result different from the unlimited parse",
                          {"boundary": B.hex(), "body": body.hex(), "mm": mm, "mp": mp, "buffer_size": bs, "short": short,
                           "limited": repr(got)[:300], "unlimited": repr(ref)[:300]})
+        elif got != "X:413" and (mm is not None or mp is not None):
+            # limits are pure guards with ONE way of refusing: under limits the outcome is the unlimited outcome (result or
+            # error) or RequestEntityTooLarge, never a different error or a silently different result
+            ref = impl_form_parse(B, body, bs, short, None, None)
+            if ref != got:
+                chk.fail("limit-outcome-not-413", f"under max_form_memory_size={mm} / max_form_parts={mp} the parse ended with {got!r}; "
+                         f"without limits: {repr(ref)[:120]} (exceeding a limit must raise RequestEntityTooLarge)",
+                         {"boundary": B.hex(), "body": body.hex(), "mm": mm, "mp": mp, "buffer_size": bs, "short": short})
         # buffer bound on the sans-io decoder, after every successful receive_data
         if mm is not None:
             dec = M.MultipartDecoder(B, max_form_memory_size=mm, max_parts=mp)
